@@ -147,7 +147,8 @@ class DeduplicateHashedInitializersPass(ir.passes.InPlacePass):
                 # Hash tensor data to avoid storing large amounts of data in memory
                 hashed = hashlib.sha512()
                 tensor_data = const_val.numpy()
-                hashed.update(tensor_data)
+                # hashlib needs a C-contiguous buffer; the array of a tensor may be a strided view
+                hashed.update(np.ascontiguousarray(tensor_data))
                 tensor_digest = hashed.hexdigest()
 
                 tensor_dims = tuple(const_val.shape.numpy())
